@@ -68,6 +68,11 @@ type Plan struct {
 	Digest string            `json:"digest,omitempty"`
 	Detail string            `json:"detail,omitempty"`
 	Env    map[string]string `json:"env,omitempty"`
+	// Attempts > 0: on the tree this file was written for, the violation is
+	// not a function of the schedule alone (the library has acquired hidden
+	// state of its own, e.g. a sync.Pool); it showed in some of so many
+	// replays of this plan, and a replay tries as often
+	Attempts int `json:"attempts,omitempty"`
 }
 
 // RunResult is the outcome of executing a plan once.
